@@ -81,6 +81,9 @@ fn is_calendar_date(d: &str) -> bool {
 }
 
 fn class_of_date(d: &str) -> &'static str {
+    if d.len() != 6 {
+        return "not-six-characters";
+    }
     if !d.bytes().all(|b| b.is_ascii_digit()) {
         return "non-digit";
     }
@@ -158,6 +161,11 @@ pub fn judge(case: &Case, l: &mut Local) {
             let v20 = valid_ymd(digits, 2000);
             let mut meanings: Vec<(&str, String)> = Vec::new();
             for (ty, pre, suf) in DATE_FIELDS {
+                // Field11 / 11R / 11S take whatever follows the six digits as the start of their optional
+                // session part (a listed C05 leniency), so a longer spelling does not stay in the date slot
+                if digits.len() != 6 && ty.starts_with("Field11") {
+                    continue;
+                }
                 let ops = field(ty).unwrap();
                 let content = format!("{pre}{digits}{suf}");
                 let r = guard(|| (ops.parse)(&content));
@@ -324,6 +332,8 @@ pub fn run(cfg: &Config) -> i32 {
     let n_offset_hostile = (5 * hostile.len()) as u64;
     let total_n = n_dates + n_date_hostile + n_times + n_time_hostile + n_offsets + n_offset_hostile;
     let bases = ["250615", "991231", "000229", "500101"];
+    // other spellings of a date than the six digits of the format
+    let other_spellings = ["20250615", "19240719", "2025-06-15", "15062025", "25615", "2506150", "250615 ", " 250615"];
     let total = par_for(cfg, total_n, |i, l| {
         let case = if i < n_dates {
             Case::Date { digits: format!("{i:06}") }
@@ -356,9 +366,14 @@ pub fn run(cfg: &Config) -> i32 {
         }
         judge(&case, l);
     });
+    let mut total = total;
+    {
+        let extra: Vec<Case> = other_spellings.iter().map(|d| Case::Date { digits: d.to_string() }).collect();
+        let t1 = par_for(cfg, extra.len() as u64, |i, l| judge(&extra[i as usize], l));
+        total.merge(t1);
+    }
     // message level: the date slot of every date-bearing field occurrence of a generated maximal message
     // of each type gets non-dates and real dates (a parser that drops a field it cannot read accepts the non-date)
-    let mut total = total;
     {
         use crate::spec::layout::{self, Gen, GenOptions};
         use crate::spec::{self, Canon};
